@@ -310,19 +310,21 @@ def run_direct(case, rec):
         scale = max(1.0, np.abs(pos).max(), np.abs(cell).max())
         # ---- to_scaled / to_cartesian + round trips
         wrap = bool(rng.random() < 0.4)
-        sc = g.to_scaled(cell, pos.copy(), wrap=wrap, pbc=pbc)
-        ca = g.to_cartesian(cell, sc.copy(), wrap=False, pbc=pbc)
+        pbc_arg, pform = cells.pbc_form(rng, pbc)          # any accepted form of the same flags
+        classes.setdefault("pbc_form", []).append(pform)
+        sc = g.to_scaled(cell, pos.copy(), wrap=wrap, pbc=pbc_arg)
+        ca = g.to_cartesian(cell, sc.copy(), wrap=False, pbc=pbc_arg)
         rec.call(M["roundtrip"]); rec.judged(M["roundtrip"])
         if not wrap and np.abs(ca - pos).max() > 1e-7 * scale:
             rec.violation(M["roundtrip"], "C20|roundtrip|cartesian", "to_cartesian(to_scaled(p)) != p", _wit(cell=cell, positions=pos))
         s0 = rng.uniform(-2, 3, (len(atoms), 3))
-        ca2 = g.to_cartesian(cell, s0.copy(), wrap=bool(rng.random() < 0.3), pbc=pbc)
+        ca2 = g.to_cartesian(cell, s0.copy(), wrap=bool(rng.random() < 0.3), pbc=cells.pbc_form(rng, pbc)[0])
         sc2 = g.to_scaled(cell, g.to_cartesian(cell, s0.copy()))
         rec.call(M["roundtrip"]); rec.judged(M["roundtrip"])
         if np.abs(sc2 - s0).max() > 1e-7 * max(1.0, np.abs(s0).max()) * np.linalg.cond(cell):
             rec.violation(M["roundtrip"], "C20|roundtrip|scaled", "to_scaled(to_cartesian(s)) != s", _wit(cell=cell, scaled=s0))
         # 1-D input form
-        g.to_scaled(cell, pos[0].copy(), wrap=wrap, pbc=pbc)
+        g.to_scaled(cell, pos[0].copy(), wrap=wrap, pbc=pbc_arg)
         g.to_cartesian(cell, s0[0].copy())
         # ---- get_minimized_cell
         axis = int(rng.integers(3))
